@@ -6011,6 +6011,13 @@ class CodegenCtx:
                 return True
         return False
 
+    def _emitted_transitions_pointing_to(self, target_state: DFState):
+        """
+        Like DFA.transitions_pointing_to, but over every state that gets emitted (not just the reachable ones), since
+        unreachable states are kept -- and still contain gotos -- when inaccessible state removal is off.
+        """
+        return [t for state in self.dfa.states for t in state.all_transitions() if t.target is target_state]
+
     def _generate_feed_implementation(self):
         result = Outputter()
 
@@ -6032,11 +6039,11 @@ class CodegenCtx:
                 # Emit the case label
                 contents.add(f"case {idx}:")
                 # Emit goto target for fallthroughs if anything falls here (these are separate to make it slightly easier to read)
-                if any(x.is_fallthrough and self._transition_will_directly_jump(x, excl_fall=True) for x in self.dfa.transitions_pointing_to(state)):
+                if any(x.is_fallthrough and self._transition_will_directly_jump(x, excl_fall=True) for x in self._emitted_transitions_pointing_to(state)):
                     contents.add(f"fall_{idx}:")
                 # If any transition can directly jump into this case, emit a label for it to do so. We don't really _need_ these checks
                 # but gcc complains about unused labels in -Wall.
-                if any(self._transition_will_directly_jump(x) for x in self.dfa.transitions_pointing_to(state) if x.on_values != {DFTransition.End}):
+                if any(self._transition_will_directly_jump(x) for x in self._emitted_transitions_pointing_to(state) if x.on_values != {DFTransition.End}):
                     contents.add(f"jpto_{idx}:")
                 with contents as state_body:
                     # Is this a normal state
